@@ -163,3 +163,7 @@ CLAUSES = [
                 "non-trivial: an eps alternative and >= 2 variables"),
 ]
 KNOWN_PREDICATES = {}
+
+# coverage-guided second driver (atheris / libFuzzer through Hypothesis' fuzz_one_input) for the core clauses: (clause, quick runs, thorough runs)
+from harness.covfuzz import cov_clauses  # noqa: E402
+CLAUSES += cov_clauses('C16', CLAUSES, [('automaton', 3000, 60000), ('regexp', 2000, 40000), ('cfg', 2000, 40000)])
